@@ -12,6 +12,7 @@
 static int valueConvert(MPT_INTERFACE(convertable) *conv, MPT_TYPE(type) type, void *ptr)
 {
 	const MPT_STRUCT(value) *val = *((void **) (conv + 1));
+	int ret;
 	
 	if (!type) {
 		static const uint8_t fmt[] = { MPT_ENUM(TypeValue), 0 };
@@ -25,7 +26,9 @@ static int valueConvert(MPT_INTERFACE(convertable) *conv, MPT_TYPE(type) type, v
 		}
 		return type;
 	}
-	return mpt_value_convert(val, type, ptr);
+	/* zero is "source without value" for users of a convertable, not "copied verbatim" */
+	ret = mpt_value_convert(val, type, ptr);
+	return ret ? ret : (int) val->_type;
 }
 
 /*!
